@@ -408,10 +408,7 @@ def open_channel(ctx, prog, ex, viol):
             if okf:
                 ms = method_of(prog, bv.items[0])[2]
                 c += [bv.items[0]['chan'].bv == newid, ms.fields[0].s == str_lit('""')]
-        if not isinstance(rv, Panic) and rv.disc == 0:
-            chh = rv.payloads[0].fields[0]
-            c.append(field(prog, chh, 'ChannelHandle', 'frame_max').bv == pm)
-        m = ctx.decide(f"c12.open_channel:{err_name(prog, rv)}", s.pc, z3.And(*c), group='open_channel forwards the requested id, opens exactly that channel with Channel.Open, and the new channel inherits the payload limit')
+        m = ctx.decide(f"c12.open_channel:{err_name(prog, rv)}", s.pc, z3.And(*c), group='open_channel forwards the requested id and opens exactly that channel with Channel.Open (what the new channel does with the frame size limit: C02)')
         if m is not None:
             viol.append({'op': 'open_channel', 'why': ctx.explain(m, c)[:3]})
 
